@@ -360,7 +360,7 @@ def run(ctx):
     degenerate(ctx)
     # (b)+(c)
     g = grammar.Gen(rng)
-    cuts(ctx, g, ctx.n(14, 1500))
+    cuts(ctx, g, ctx.n(14, 250))
     dangling_words(ctx)
     for it in range(ctx.n(700, 20000)):
         r = rng.random()
@@ -434,6 +434,7 @@ def keyof(f):
 
 def classify(f, kf):
     for k in kf:
+        # (the reindent/indent_columns ordering defect was repaired: fix e5826ed, KF-C07-F6 — a fixed entry suppresses nothing)
         if k.get('site') and f.get('site') == k['site']:
             # anchored in the Lean domain predicate: the finding is "the tree is outside FilterSafe.<stage>"; an exception on a tree
             # INSIDE the domain (predicate 1) contradicts the totality theorem's tie and is never a known finding
@@ -453,7 +454,7 @@ def replay_known(ctx, k):
         if 'accessor' in w:
             accessors(c2, w['input'], sqlparse.parse(w['input']))
         else:
-            try_format(c2, w['input'], eval(w['options']) if isinstance(w.get('options'), str) else (w.get('options') or {}), 'known')
+            (try_option if k['id'] == 'KF-C07-F6' else try_format)(c2, w['input'], eval(w['options']) if isinstance(w.get('options'), str) else (w.get('options') or {}), 'known')
     return len(c2.failures) > 0
 
 
